@@ -92,6 +92,7 @@ def inputs(draw, with_df=False):
         out["scale"] = draw(st.sampled_from([None, [1.0, 1.0, 1.0, 1.0][: len(spatial) + 1],
                                              [1.0, 2.0, 0.5, 2.0][: len(spatial) + 1]]))
         out["shuffle"] = draw(st.integers(0, 5))
+        out["recompute_area"] = draw(st.booleans())
     return out
 
 
@@ -221,7 +222,8 @@ def probe_from_df(inp) -> ProbeResult:
     try:
         with warnings.catch_warnings():
             warnings.simplefilter("ignore")
-            tracks = tracks_from_df(df, seg, scale=None if scale is None else list(scale), node_name_map=nm)
+            tracks = tracks_from_df(df, seg, scale=None if scale is None else list(scale), node_name_map=nm,
+                                    features={"Area": "Recompute"} if inp.get("recompute_area") else None)
     except Exception as e:  # noqa: BLE001
         res.fail(f"exception:{type(e).__name__}", f"tracks_from_df raised {e!r} (mode {inp['mode']})")
         return res
@@ -239,9 +241,14 @@ def probe_from_df(inp) -> ProbeResult:
         if {(int(u), int(v)) for u, v in tracks.graph.edges} != edges:
             res.fail("graph_edges", f"edges {sorted(tracks.graph.edges)} != {sorted(edges)}")
         else:
+            vox = 1.0 if scale is None else float(np.prod(scale[1:]))
             for n in inp["nodes"]:
                 if int(tracks.graph.nodes[n["id"] + off]["time"]) != n["t"]:
                     res.fail("node_time", f"node {n['id'] + off} time mismatch")
+                cnt = int((src[n["t"]] == n["seg_id"]).sum())
+                a = tracks.graph.nodes[n["id"] + off].get("area")
+                if a is None or abs(float(a) - cnt * vox) > 1e-9:
+                    res.fail("node_area", f"node {n['id'] + off}: area {a} != {cnt} px * {vox}")
     _classify(res, inp, src)
     return res
 
